@@ -439,6 +439,26 @@ def spec_reads_walrus_of_value(x):
 @icontract.require(lambda x, s: f"{x!r:>{s}}" == "" or f"{x!s}{x!a}" == "")
 def conversions(x, s):
     pass
+# closures with a cell that is still empty when the contract is violated (the enclosing function assigns it later); a module
+# global bears the name of the closure variable which IS bound
+threshold = 1000
+zz_late = 2000
+def make_closure(first_unbound):
+    if first_unbound:
+        @icontract.require(lambda x: x < threshold and x < aa_late)
+        def f(x):
+            pass
+        threshold = 10
+        out = lambda: f(50)
+        return out, (lambda: None)
+    else:
+        @icontract.require(lambda x: x < threshold and x < zz_late)
+        def g(x):
+            pass
+        threshold = 10
+        return (lambda: g(50)), (lambda: None)
+    aa_late = 5
+    zz_late = 5
 '''
 # (callable, expected lines "text was repr" that must be in the message, texts that must NOT carry another value)
 PRIVATE_CASES = [
@@ -452,6 +472,8 @@ PRIVATE_CASES = [
     ("callable_equal_to_all", lambda ns: ns["callable_equal_to_all"](ns["AnyCallable"](), [1, -1]),
      {"f(x > 0 for x in xs)": "[]", "xs": "[1, -1]", "f": "AnyCallable()"}),
     ("spec_reads_walrus_of_value", lambda ns: ns["spec_reads_walrus_of_value"](3), {"x": "3", 'f"{(w := x):{w}}"': "'  3'"}),
+    ("closure_with_empty_cell_before", lambda ns: ns["make_closure"](True)[0](), {"threshold": "10", "x": "50"}),
+    ("closure_with_empty_cell_after", lambda ns: ns["make_closure"](False)[0](), {"threshold": "10", "x": "50"}),
     ("conversions", lambda ns: ns["conversions"]("é", 5), {"x": "'é'", "s": "5", 'f"{x!r:>{s}}"': "\"  'é'\"", 'f"{x!s}{x!a}"': "\"é'\\\\xe9'\""}),
 ]
 
